@@ -39,6 +39,17 @@ Theorem C15_code_structure :
 Proof. exact gen_structure. Qed.
 Print Assumptions C15_code_structure.
 
+(* every branch of synchronized() hands the caller's lock and ctx to the wrapper class, and a
+   wrapper pickles as (synchronized, (obj, lock)): the lock given is the lock used, also after a
+   pickle round trip *)
+Theorem C15_code_lock_passed :
+  G_sharedmem.synchronized_branches = SharedMem.synchronized_branches /\
+  G_sharedmem.synchronized_branches_passing_lock_and_ctx = G_sharedmem.synchronized_branches /\
+  pickling_a_wrapper_passes_its_object_and_its_lock = true /\
+  value_and_array_hand_lock_and_ctx_to_synchronized = true.
+Proof. exact gen_synchronized_passes_lock. Qed.
+Print Assumptions C15_code_lock_passed.
+
 (* ---- initialised: whatever the heap state and whatever bytes the (possibly recycled) storage
    held, a RawValue reads as its initialiser followed by zeros (all zeros without initialiser) ---- *)
 Theorem C15_initialised_value : forall pg size init s s' o, 0 <= size ->
@@ -85,6 +96,11 @@ Print Assumptions C15_isolated.
 Theorem C15_same_storage_after_rebuild : forall o, rebuild_obj (reduce_obj o) = o.
 Proof. exact rebuild_same. Qed.
 Print Assumptions C15_same_storage_after_rebuild.
+
+Theorem C15_same_lock_and_storage_after_rebuild : forall w,
+  rebuild_wrapper (reduce_wrapper w) = w.
+Proof. exact rebuild_wrapper_same. Qed.
+Print Assumptions C15_same_lock_and_storage_after_rebuild.
 
 (* hence a store through the original is read back through the rebuilt object and vice versa *)
 Theorem C15_store_visible : forall m o bs m', Z.of_nat (length bs) = o_size o ->
